@@ -30,8 +30,8 @@ def run_random(prop, seed, tier, suffix=True):
     return runs
 
 
-_BRIEF_DIFF = re.compile(r'diff \|-> \[l \|-> (\d+), what \|-> "([^"]*)"\]')
-_BAD = re.compile(r'\[l \|-> (\d+), p \|-> "(C\d+)", what \|-> "([^"]*)"\]')
+_BRIEF_DIFF = re.compile(r'diff (?:=|\|->)\s*\[\s*l \|-> (\d+),\s*what \|->\s*"([^"]*)"')
+_BAD = re.compile(r'l \|-> (\d+),\s*p \|-> "(C\d+)",\s*what \|->\s*"([^"]*)"')
 
 
 def validate_trace(trace, cfg_name):
@@ -44,11 +44,16 @@ def validate_trace(trace, cfg_name):
         if ms and ms[-1].group(2) != "none":
             res["diff"] = {"event": int(ms[-1].group(1)), "what": ms[-1].group(2)}
         seen = set()
-        for m in _BAD.finditer(r.out):
-            k = (int(m.group(1)), m.group(2), m.group(3))
-            if k not in seen:
-                seen.add(k)
-                res["bad"].append({"event": k[0], "property": k[1], "what": k[2]})
+        for m in re.finditer(r'\[[^\[\]]*p \|-> "C\d+"[^\[\]]*\]', r.out, re.S):
+            rec = m.group(0)
+            ml = re.search(r'\bl \|-> (\d+)', rec)
+            mp = re.search(r'\bp \|-> "(C\d+)"', rec)
+            mw = re.search(r'what \|->\s*"([^"]*)"', rec)
+            if ml and mp and mw:
+                k = (int(ml.group(1)), mp.group(1), mw.group(1))
+                if k not in seen:
+                    seen.add(k)
+                    res["bad"].append({"event": k[0], "property": k[1], "what": k[2]})
     if "TRACE-NOT-CONSUMED" in r.out and not r.violated:
         raise common.ToolError("trace not consumed by TraceChonky (malformed event?):\n" + r.out[-1500:])
     return res
